@@ -247,7 +247,10 @@ func (l *Lexer) GetLineAndCol(pos int) (string, int, int) {
 	col := 1
 	lineStart := 0
 	inLine := false
-	for i, r := range l.src {
+	// positions are byte offsets, so walk bytes: ranging over runes never visits
+	// an offset that lies inside a multi-byte character
+	for i := 0; i < len(l.src); i++ {
+		r := l.src[i]
 		if r == '\n' {
 			if inLine {
 				return l.src[lineStart:i], line, col
